@@ -259,6 +259,13 @@ var errflowExtraRoots = map[string][]string{
 	"C10": {"BootstrapCluster"},
 }
 
+// start-up / operator entry points are read by many shared rule groups; their
+// error discipline is claimed only by the properties about what they write.
+var errflowRootOnlyFor = map[string]map[string]bool{
+	"BootstrapCluster": {"C01": true, "C03": true, "C06": true, "C07": true, "C10": true},
+	"RecoverCluster":   {"C02": true, "C07": true, "C10": true, "C11": true},
+}
+
 func sErrFlow(c *Ctx) {
 	classes := errflowPropClasses[c.Prop]
 	if len(classes) == 0 {
@@ -302,6 +309,9 @@ func sErrFlow(c *Ctx) {
 			root = root[:i]
 		}
 		if !touchedRoot[root] {
+			continue
+		}
+		if only, ok := errflowRootOnlyFor[root]; ok && !only[c.Prop] {
 			continue
 		}
 		// class of the group: from the current sites when present, else skip
